@@ -244,6 +244,18 @@ def run(ck: Check) -> int:
         if mb != bits:
             d = [(x, a, b) for x, a, b in zip(cands, bits, mb) if a != b][:4]
             k6['disagree'].append({'stream': 'K6', **c.to_json(G, t), 'api': api, 'path/code/model': d})
+        # the same answers when the root is a descriptor on the parent plus a root_dir relative to it (relative candidates only)
+        if c.mode in ('root_dir', 'dir_fd') and not t.cyclic:
+            rel = [x for x in cands if not x.startswith('/')]
+            relbits = ''.join(b for x, b in zip(cands, bits) if not x.startswith('/'))
+            pl0 = [c.pats] if isinstance(c.pats, str) else list(c.pats)
+            if rel and not any(q.startswith('/') for q in pl0):
+                rs3, bits3 = K.run_real_match(G, t, rel, c.pats, fl, c.exclude, api, 'fd+root')
+                stats['side:fd+root'] = stats.get('side:fd+root', 0) + len(rel)
+                if rs3 == 'ok' and bits3 != relbits:
+                    d3 = [(x, a, b) for x, a, b in zip(rel, relbits, bits3) if a != b][:4]
+                    found.append(Failing(f'{api}(REALPATH): the answer through dir_fd=<parent> + root_dir=<name> differs from the answer through {c.mode} for {d3[0][0]!r}',
+                                         {**c.to_json(G, t), 'path/one-root/fd+root': d3}, relbits[:40], bits3[:40], 'wcmatch/_wcmatch.py:_fs_match (base of the link test)'))
         # ---------------- side clauses, on the real code
         verdict = dict(zip(cands, bits))
         for x in cands:
